@@ -91,7 +91,7 @@ def candidates(c):
                     trio = [trio[i] for i in perm]
                     if as_initial:
                         host = n.parent
-                        if host is None or host.kind != "state" or any(k.kind == "initial" for k in host.children):
+                        if host is None or host.kind not in ("state", "scxml") or any(k.kind == "initial" for k in host.children):
                             continue
                         host.initial = trio
                         return True
